@@ -1,5 +1,6 @@
 \* repaired design (all switches TRUE), exhaustive: index histories with reorgs across two window
 \* boundaries, cache warming, graceful/ungraceful restarts; full-range queries
+\* measured: 3 372 distinct / 25 548 generated states, depth 11
 CONSTANTS
   W = 4
   Base = 2
